@@ -397,6 +397,53 @@ func scenarios() map[string]func(seed uint64, nG, iters int) {
 		useLimiter("limiter.Queue", limiter.NewFifoBlockingLimiter(mkDefault(2, nil), 3, time.Millisecond))(s, g, n/8+1)
 		useLimiter("limiter.Queue", limiter.NewLifoBlockingLimiter(mkDefault(2, nil), 3, time.Millisecond, nil))(s, g, n/8+1)
 	}
+	// ---- constructors called concurrently with one shared configuration value / one shared tag slice that has spare capacity
+	// (what a service does when it builds its per-endpoint limiters from a common base at start-up)
+	m["ctor.shared-config-and-tags"] = func(s uint64, g, n int) {
+		base := make([]string, 2, 16)
+		base[0], base[1] = "service", "x"
+		mr, _ := gometrics.NewGoMetricsMetricRegistry(gom.NewRegistry(), "", "p", time.Hour)
+		cfg := limiter.QueueLimiterConfig{MaxBacklogSize: 3, MaxBacklogTimeout: time.Millisecond, MetricRegistry: mr, Tags: base}
+		hammer("ctor.shared-config-and-tags", s, g, n/16+1, []op{
+			{"NewQueueBlockingLimiterFromConfig(fifo)", func(*rand.Rand) {
+				c := cfg
+				c.Ordering = limiter.OrderingFIFO
+				keep(limiter.NewQueueBlockingLimiterFromConfig(mkDefault(1, nil), c).String())
+			}},
+			{"NewQueueBlockingLimiterFromConfig(lifo)", func(*rand.Rand) {
+				c := cfg
+				c.Ordering = limiter.OrderingLIFO
+				keep(limiter.NewQueueBlockingLimiterFromConfig(mkDefault(1, nil), c).String())
+			}},
+			{"NewQueueBlockingLimiterFromConfig(default ordering)", func(*rand.Rand) {
+				keep(limiter.NewQueueBlockingLimiterFromConfig(mkDefault(1, nil), cfg).String())
+			}},
+			{"NewAIMDLimit(tags)", func(*rand.Rand) { keep(limit.NewAIMDLimit("x", 5, 0.9, 1, mr, base...).String()) }},
+			{"NewDefaultVegasLimit(tags)", func(*rand.Rand) { keep(limit.NewDefaultVegasLimit("x", nil, mr, base...).String()) }},
+			{"NewDefaultGradient2Limit(tags)", func(*rand.Rand) { keep(limit.NewDefaultGradient2Limit("x", nil, mr, base...).String()) }},
+			{"NewSimpleStrategyWithMetricRegistry(tags)", func(*rand.Rand) {
+				keep(strategy.NewSimpleStrategyWithMetricRegistry(3, mr, base...).String())
+			}},
+			{"NewPreciseStrategyWithMetricRegistry(tags)", func(*rand.Rand) {
+				keep(strategy.NewPreciseStrategyWithMetricRegistry(3, mr, base...).String())
+			}},
+			{"NewDefaultLimiter", func(*rand.Rand) {
+				dl, err := limiter.NewDefaultLimiter(limit.NewFixedLimit("x", 3, nil), 1, 1, 0, 10, strategy.NewSimpleStrategy(3), limit.NoopLimitLogger{}, mr)
+				if err != nil {
+					panic(err)
+				}
+				keep(dl.String())
+			}},
+			{"NewFixedPool", func(r *rand.Rand) {
+				fp, err := pool.NewFixedPool("p", pool.Ordering(r.IntN(3)), 2, -1, -1, -1, -1, 3, time.Millisecond, nil, mr)
+				if err != nil {
+					panic(err)
+				}
+				keep(fmt.Sprint(fp.Limit()))
+			}},
+		})
+		mr.Stop()
+	}
 	m["pool"] = func(s uint64, g, n int) {
 		for _, o := range []pool.Ordering{pool.OrderingRandom, pool.OrderingFIFO, pool.OrderingLIFO} {
 			fp, err := pool.NewFixedPool("p", o, 2, -1, -1, -1, -1, 3, time.Millisecond, nil, nil)
